@@ -98,7 +98,7 @@ pub fn check(model: &Model) -> Vec<Warning> {
     });
     // Puentes térmicos con longitudes negativas
     model.thermal_bridges.iter().for_each(|tb| {
-        if tb.l.is_sign_negative() {
+        if tb.l < 0.0 {
             warnings.push(Warning {
                 level: WARNING,
                 id: Some(tb.id),
